@@ -42,22 +42,26 @@ Trailing(nd) == CASE nd.k = "text"   -> IF nd.tr = "h" THEN "" ELSE nd.tr
 WsNodeAfter(nd) == ~IsTrailer(nd) /\ WsAfter(nd) # ""
 
 HasCondAttr(nd) == nd.k \in {"el", "void"} /\ \E i \in 1..Len(nd.attrs) : nd.attrs[i].a = "cond"
+\* the start tag of nd spans lines: a conditional attribute always does; in the "loose" spelling every attribute
+\* is written on its own line (the parser records that as IndentAttrs and keeps it)
+OpenTagSpansLines(nd, loose) == HasCondAttr(nd) \/ (loose /\ nd.k \in {"el", "void"} /\ nd.attrs # <<>>)
 
-RECURSIVE SpansLines(_)
+RECURSIVE SpansLines(_, _)
 \* children not all on the start tag's line  (Element.IndentChildren)
-SpansLines(el) ==
+SpansLines(el, loose) ==
     /\ el.kids # <<>>
     /\ \/ el.lead = "v"
        \/ \E i \in 1..Len(el.kids) :
             LET kd == el.kids[i] IN
             \/ WsAfter(kd) = "v"
             \/ kd.k \in {"if", "for", "switch", "callb", "gcomment", "gocodeml"}
-            \/ HasCondAttr(kd)
-            \/ (kd.k = "el" /\ SpansLines(kd))
+            \/ OpenTagSpansLines(kd, loose)
+            \/ (kd.k = "el" /\ SpansLines(kd, loose))
 
 TemplBlockNames == BlockNames \cup {"br", "hr"}
-IsBlockNode(nd) == \/ nd.k \in {"if", "for", "switch"}
-                   \/ (nd.k = "el" /\ (nd.name \in TemplBlockNames \/ SpansLines(nd)))
+IsBlockNode(nd, loose) ==
+                   \/ nd.k \in {"if", "for", "switch"}
+                   \/ (nd.k = "el" /\ (nd.name \in TemplBlockNames \/ SpansLines(nd, loose)))
                    \/ (nd.k = "void" /\ nd.name \in TemplBlockNames)
 AlwaysBreakAfter(nd) == nd.k = "void" /\ nd.name \in {"br", "hr"}
 
@@ -69,41 +73,44 @@ SetWs(nd, d) ==
       [] nd.k \in {"slot", "hcomment", "mcomment", "raw"} -> [nd EXCEPT !.after = d]
       [] OTHER -> nd      \* line-start nodes always end their line
 
-Decision(nodes, i, indent) ==
+Decision(nodes, i, indent, loose) ==
     LET nd == nodes[i]
         base == IF IsTrailer(nd) THEN Trailing(nd)
                 ELSE IF nd.k = "gcomment" THEN "v"
                 ELSE IF NonTrailerRule = "newline" THEN "v"
                 ELSE IF ~indent \/ ~WsNodeAfter(nd) THEN "" ELSE "v"
         last == i = Len(nodes) /\ ~WsNodeAfter(nd)
-        nextBlock == i < Len(nodes) /\ ~WsNodeAfter(nd) /\ IsBlockNode(nodes[i + 1])
+        nextBlock == i < Len(nodes) /\ ~WsNodeAfter(nd) /\ IsBlockNode(nodes[i + 1], loose)
         separated == WsAfter(nd) # "" \/ HasSp(nd)
         forced == indent /\ (last \/ nextBlock \/ AlwaysBreakAfter(nd))
                          /\ (ForcedBreaks = "asCoded" \/ last \/ separated)
     IN IF forced THEN "v" ELSE base
 
-RECURSIVE FmtList(_, _), FmtNode(_), FmtBranches(_), FmtCases(_)
+RECURSIVE FmtList(_, _, _), FmtNode(_, _), FmtBranches(_, _), FmtCases(_, _)
 
-FmtList(nodes, indent) == [i \in 1..Len(nodes) |-> SetWs(FmtNode(nodes[i]), Decision(nodes, i, indent))]
+FmtList(nodes, indent, loose) ==
+    [i \in 1..Len(nodes) |-> SetWs(FmtNode(nodes[i], loose), Decision(nodes, i, indent, loose))]
 
-FmtBranches(brs) == [i \in 1..Len(brs) |-> [c |-> brs[i].c, body |-> FmtList(brs[i].body, TRUE)]]
-FmtCases(cs) == [i \in 1..Len(cs) |-> [key |-> cs[i].key, body |-> FmtList(cs[i].body, TRUE)]]
+FmtBranches(brs, loose) == [i \in 1..Len(brs) |-> [c |-> brs[i].c, body |-> FmtList(brs[i].body, TRUE, loose)]]
+FmtCases(cs, loose) == [i \in 1..Len(cs) |-> [key |-> cs[i].key, body |-> FmtList(cs[i].body, TRUE, loose)]]
 
-FmtNode(nd) ==
+FmtNode(nd, loose) ==
     CASE nd.k = "el" -> IF nd.kids = <<>> THEN nd
-                        ELSE LET ind == SpansLines(nd) IN
-                             [nd EXCEPT !.lead = IF ind THEN "v" ELSE "", !.kids = FmtList(nd.kids, ind)]
-      [] nd.k = "if" -> [nd EXCEPT !.brs = FmtBranches(nd.brs), !.els = FmtList(nd.els, TRUE)]
-      [] nd.k = "for" -> [nd EXCEPT !.body = FmtList(nd.body, TRUE)]
-      [] nd.k = "switch" -> [nd EXCEPT !.cases = FmtCases(nd.cases)]
-      [] nd.k = "callb" -> [nd EXCEPT !.body = FmtList(nd.body, TRUE)]
+                        ELSE LET ind == SpansLines(nd, loose) IN
+                             [nd EXCEPT !.lead = IF ind THEN "v" ELSE "", !.kids = FmtList(nd.kids, ind, loose)]
+      [] nd.k = "if" -> [nd EXCEPT !.brs = FmtBranches(nd.brs, loose), !.els = FmtList(nd.els, TRUE, loose)]
+      [] nd.k = "for" -> [nd EXCEPT !.body = FmtList(nd.body, TRUE, loose)]
+      [] nd.k = "switch" -> [nd EXCEPT !.cases = FmtCases(nd.cases, loose)]
+      [] nd.k = "callb" -> [nd EXCEPT !.body = FmtList(nd.body, TRUE, loose)]
       [] OTHER -> nd
 
-Fmt(p) == FmtList(p, TRUE)
+\* loose = the source is written in the spelling that puts every attribute on its own line
+FmtS(p, loose) == FmtList(p, TRUE, loose)
+Fmt(p) == FmtS(p, FALSE)
 
 -----------------------------------------------------------------------------
 (* Properties of the layout model *)
-Idempotent == done => Fmt(Fmt(prog)) = Fmt(prog)
+Idempotent == done => \A loose \in BOOLEAN : FmtS(FmtS(prog, loose), loose) = FmtS(prog, loose)
 
 \* whitespace (of any class) after node nd in its sibling list, as the generator will see it
 Separated(nd) == WsAfter(nd) # "" \/ HasSp(nd)
@@ -133,5 +140,5 @@ FmtKeepsMust == done => \A env \in Envs :
         y == Denote(Fmt(prog), env).toks
     IN \A i \in 1..Len(x) : (i <= Len(y) /\ x[i].g = "must") => y[i].g = "must"
 
-EmitFmt == done => PrintT(<<"FMT", ToJson([prog |-> prog, fmt |-> Fmt(prog)])>>)
+EmitFmt == done => PrintT(<<"FMT", ToJson([prog |-> prog, fmt |-> Fmt(prog), fmtl |-> FmtS(prog, TRUE)])>>)
 =============================================================================
